@@ -41,6 +41,7 @@ func (l *allOfValueLoader) Load(lex lexeme.LexEvent) bool {
 func (l *allOfValueLoader) begin(lex lexeme.LexEvent) {
 	switch lex.Type() {
 	case lexeme.ArrayBegin:
+		l.allOfConstraint.WrittenAsArray()
 		l.stateFunc = l.arrayItemBeginOrArrayEnd
 	case lexeme.LiteralBegin:
 		l.stateFunc = l.scalarValue
